@@ -358,6 +358,22 @@ def shapeOk (o : Op) (inp : Input) : Bool :=
 
 def wf (o : Op) (inp : Input) : Bool := idsOk inp && shapeOk o inp
 
+/-- The operation is documented to keep every element of argument `a`: passed as an rvalue, each of its elements is
+in the result afterwards (`map`-like operations with the identity-preserving function of the harness, joins, pushes,
+permutations, constructors; `sequence` on success; `from_range` when the size fits; `filter`/`bind` when the function keeps). -/
+def keeps (o : Op) (inp : Input) (a : Nat) : Bool :=
+  match o with
+  | .algMap | .tupMap | .arrMap | .recMap | .gridMap | .optMap | .varMatch | .varApply | .eithMatch
+  | .reverse | .join2 | .join3 | .tupPushBack | .tupConcat | .arrPushBack | .arrJoin2 | .arrJoin3
+  | .recPermute | .recMultiplyDisjoint | .contMake | .optsFlag | .optsOption | .treeCtor
+  | .optJoin | .optCat | .optToContainer | .optFrom | .optAlt | .eithJoin | .eithMap | .eithMapFailure | .eithFromOptional
+  | .eithBind | .moveIf | .moveIfRvalue => true
+  | .fold | .foldBreak => a == 1
+  | .optSequence | .eithSequence => inp.par.all (· == 1)
+  | .arrFromRange => inp.par.headD 0 == inp.size 0
+  | .optFilter | .optBind => inp.par.headD 0 == 1
+  | _ => false
+
 /-- the outcome of an operation: the machine state after its program -/
 def exec (o : Op) (inp : Input) : St := run (prog o inp) (St.init (inp.args.map (·.2)))
 
